@@ -23,7 +23,7 @@ static void scrub_stack(int pat) {
 }
 void World::begin_op(const Op *op) {
 	{ unsigned char b = fill_on ? (unsigned char)(0xA5 ^ (fill_seed * 37u)) : 0; if (fill_on && !b) b = 0x5A; scrub_stack(b); }
-	cur_op = op; reads_in_op = 0; limit_at_read = -1; jump = 0;
+	cur_op = op; reads_in_op = 0; limit_at_read = -1; jump = 0; ladder_cut_in_op = 0;
 	log.clear(); log_marks.clear(); stage = 0; stages.clear(); copy_mismatch.clear();
 	expected_paths.clear(); cancel_at = -1; reporter_calls = 0; max_eof_polls = 0; eof_polls = 0;
 }
